@@ -34,3 +34,17 @@ Proof.
   pose proof unattributed_ok_true as H. unfold unattributed_ok in H. apply andb_true_iff in H. destruct H as [A B].
   split; intros x Hx; [exact (str_subset_spec _ _ _ A Hx) | exact (str_subset_spec _ _ _ B Hx)].
 Qed.
+
+Lemma src_lock_order_ok_true : src_lock_order_ok = true.
+Proof. vm_compute. reflexivity. Qed.
+
+Lemma lock_order_tied_true : lock_order_tied = true.
+Proof. vm_compute. reflexivity. Qed.
+
+Lemma src_lock_order_spec : forall a b, In (a, b) gen_lock_order ->
+  exists ra rb, src_rank a = Some ra /\ src_rank b = Some rb /\ ra < rb.
+Proof.
+  intros a b H. pose proof src_lock_order_ok_true as K. unfold src_lock_order_ok in K. rewrite forallb_forall in K.
+  specialize (K _ H). simpl in K. destruct (src_rank a) as [ra|]; try discriminate. destruct (src_rank b) as [rb|]; try discriminate.
+  exists ra, rb. repeat split; auto. apply Nat.ltb_lt. exact K.
+Qed.
